@@ -133,6 +133,11 @@ impl NumericParser {
             None => return false,
             Some(v) => *v,
         };
+        if n < 0 && self.has_hanging_point {
+            // a unit directly after the decimal point: "1.千"
+            self.error_state = Error::POINT;
+            return false;
+        }
         if NumericParser::is_small_unit(n) {
             self.tmp.shift_scale(-n);
             if !self.subtotal.add(&mut self.tmp) {
